@@ -28,19 +28,19 @@ Proof. intros H. unfold seg. toR. field. lra. Qed.
 Lemma seg_chord x0 y0 x1 y1 x : x0 < x1 -> segR x0 y0 x1 y1 x = y0 + (y1 - y0) * ((x - x0) / (x1 - x0)).
 Proof. intros H. unfold seg. toR. field. lra. Qed.
 
-(** for x within [first knot, last knot]: the value is on the chord of the segment (x0, x1] that contains x (the first segment also owns its left end) *)
-Lemma interp_skip xa ya xb yb r rest x : xb < x -> interpR ((xa, ya) :: (xb, yb) :: r :: rest) x = interpR ((xb, yb) :: r :: rest) x.
-Proof.
-  intros H. destruct r as [xc yc]. cbn [interp_segments]. toR. unfold Rleb at 1. destruct (Rle_dec x xb); [lra|reflexivity].
-Qed.
+(** for x in [x0, x1), a segment of the table: the value is on the chord (and at x = x0 it is y0 itself) *)
+Lemma interp_skip xa ya xb yb rest x : xb <= x -> interpR ((xa, ya) :: (xb, yb) :: rest) x = interpR ((xb, yb) :: rest) x.
+Proof. intros H. cbn [interp_segments]. toR. unfold Rltb at 1. destruct (Rlt_dec x xb); [lra|reflexivity]. Qed.
 Theorem interp_on_chord (t : list (R * R)) x : increasing t ->
   forall x0 y0 x1 y1 pre post, t = (pre ++ (x0, y0) :: (x1, y1) :: post)%list ->
-  (pre = [] -> x0 <= x) -> (pre <> [] -> x0 < x) -> x <= x1 ->
+  x0 <= x -> x < x1 ->
   interpR t x = y0 + (y1 - y0) * ((x - x0) / (x1 - x0)).
 Proof.
-  intros Hinc x0 y0 x1 y1 pre. revert t Hinc. induction pre as [|[xa ya] pre IH]; intros t Hinc post -> H0 H1 Hx.
-  - cbn [app interp_segments]. toR. unfold Rleb. destruct (Rle_dec x x1); [|lra]. apply seg_chord. cbn in Hinc. lra.
-  - specialize (H1 ltac:(discriminate)). cbn [app] in *.
+  intros Hinc x0 y0 x1 y1 pre. revert t Hinc. induction pre as [|[xa ya] pre IH]; intros t Hinc post -> H0 Hx.
+  - cbn [app interp_segments]. toR. unfold Rltb. destruct (Rlt_dec x x1); [|lra].
+    change (@eqb RA) with Reqb. unfold Reqb. destruct (Req_EM_T x x0) as [->|Hn]; [toR; field; cbn in Hinc; lra|].
+    apply seg_chord. cbn in Hinc. lra.
+  - cbn [app] in *.
     destruct (pre ++ (x0, y0) :: (x1, y1) :: post)%list as [|[xb yb] rest] eqn:E; [destruct pre; discriminate|].
     assert (Hle : xb <= x0).
     { destruct pre as [|[xc yc] pre']; cbn in E.
@@ -48,20 +48,24 @@ Proof.
       - injection E as <- <- Er.
         assert (Hin : In (x0, y0) rest) by (rewrite <- Er; apply in_or_app; right; left; reflexivity).
         destruct Hinc as [_ Hinc]. left. eapply increasing_head_lt; [exact Hinc|exact Hin]. }
-    destruct rest as [|r rest']; [destruct pre as [|? [|? ?]]; discriminate|].
-    rewrite interp_skip by lra. toR.
-    rewrite <- E. apply IH with (post := post); auto.
-    + rewrite E. apply Hinc.
-    + intros ->. cbn in E. injection E as <- <- _. lra.
+    rewrite interp_skip by lra. toR. rewrite <- E. apply IH with (post := post); auto. rewrite E. apply Hinc.
 Qed.
-(** in particular the tabulated value at every knot *)
-Corollary interp_at_knot (t : list (R * R)) : increasing t ->
-  forall x0 y0 x1 y1 pre post, t = (pre ++ (x0, y0) :: (x1, y1) :: post)%list -> interpR t x1 = y1.
+(** exactly at a knot the tabulated value is returned (every knot, the first and the last included) *)
+Theorem interp_at_knot (t : list (R * R)) : increasing t ->
+  forall xk yk pre post, t = (pre ++ (xk, yk) :: post)%list -> interpR t xk = yk.
 Proof.
-  intros Hinc x0 y0 x1 y1 pre post E.
-  assert (Hlt : x0 < x1).
-  { subst t. clear - Hinc. induction pre as [|[xa ya] pre IH]; cbn [app] in Hinc; [cbn in Hinc; lra|]. apply IH. apply Hinc. }
-  rewrite (interp_on_chord t x1 Hinc x0 y0 x1 y1 pre post E); try lra. toR. field. lra.
+  intros Hinc xk yk pre. revert t Hinc. induction pre as [|[xa ya] pre IH]; intros t Hinc post ->.
+  - cbn [app]. destruct post as [|[x1 y1] post]; [reflexivity|]. cbn [interp_segments]. toR. unfold Rltb.
+    destruct (Rlt_dec xk x1); [|cbn in Hinc; lra]. change (@eqb RA) with Reqb. unfold Reqb. destruct (Req_EM_T xk xk); [reflexivity|contradiction].
+  - cbn [app] in *.
+    destruct (pre ++ (xk, yk) :: post)%list as [|[xb yb] rest] eqn:E; [destruct pre; discriminate|].
+    assert (Hle : xb <= xk).
+    { destruct pre as [|[xc yc] pre']; cbn in E.
+      - injection E as <- <- _. lra.
+      - injection E as <- <- Er.
+        assert (Hin : In (xk, yk) rest) by (rewrite <- Er; apply in_or_app; right; left; reflexivity).
+        destruct Hinc as [_ Hinc]. left. eapply increasing_head_lt; [exact Hinc|exact Hin]. }
+    rewrite interp_skip by lra. toR. rewrite <- E. apply IH with (post := post); auto. rewrite E. apply Hinc.
 Qed.
 (** clamping outside the table *)
 Theorem lewis_interp_clamped (t : list (R * R)) xf yf xl yl mid x : t = ((xf, yf) :: mid ++ [(xl, yl)])%list ->
